@@ -17,6 +17,13 @@ CLAIMED = {
                   "correspondence with the extracted model and checked against an independent itertools oracle.",
             note="Trusted: Coq kernel, translator (textual recognition of the _pows loop, fail closed), extraction+driver, harness. encode's namespace normalisation (make_dict/handle_str) and dict overwrite semantics are modelled/tied by correspondence only; values are exact integers (binary64 rounding not modelled).",
             technique="Coq proof (induction, offsets invariant) + translator flag + extracted-model correspondence", design="§5 C20"),
+ "C17": dict(text="Coq theorem bisect_eq_scan (C17/Props.v): for every operator (= != < <= > >= in !in), argument, column and sorted segment [lo,hi) the rows selected by the bisect ranges, "
+                  "in order and multiplicity, equal the row-by-row scan (Missing = largest value); my_bisect shortcuts sound incl. the empty range; sorted(set(arg)) modelled and proved sorted/distinct/same members. "
+                  "Insert (rows, ragged dicts), index (run refinement with stable sorts), where/where-of-where, groupby and copy are tied by operation-sequence correspondence with the extracted model "
+                  "and checked against an independent list-of-rows oracle (permutation + lexicographic sortedness for index, partition for groupby).",
+            note="Trusted: Coq kernel, extraction+driver, harness. CPython bisect/sorted are modelled by their specifications; View index arithmetic is modelled as the table of selected rows (refinement) and tied by correspondence only. "
+                 "index correctness (permutation, lexicographic order, runs) is NOT proved in Coq - it is checked by the oracle on every generated sequence (partial). 'match'/callables: oracle only. Two open findings (stale index after insert, copy shares data).",
+            technique="Coq proof (sorted-segment interval lemmas) + extracted-model op-sequence correspondence", design="§5 C17"),
 }
 NA_REASON = "check not built yet in this revision (planned, see DESIGN.md §8); no claim is made"
 def main():
